@@ -577,6 +577,10 @@ def run(res, tier):
     res.rule("C15.6 a class the executors copy (kernels and what they hold by value) whose destructor releases a raw pointer member has a user-provided or deleted copy constructor")
     n6 = copied_owners(facts, res)
     res.floor("C15.6", n6, 1, "copied classes whose destructor releases a pointer member")
+    res.rule("C15.7 no function reachable from a kernel operator keeps a mutable static local that is not thread_local: the executors run the operators of different kernel copies at the same time (data race, and a buffer resized under a reader)")
+    import c05
+    for kcls in ("FUnifKernel", "FRotationKernel", "TbfTestKernel"):
+        c05.operator_static_locals(facts, res, kcls, "C15.7.shared-static-in-operators", min_fns=4)
     res.rule("C15.5 a member that stores the address of an element of a container member is reset by every member function that clears / refills / reallocates that container")
     np_, nc_ = member_pointers_into_containers(facts, res)
     res.instance("C15.5.member-pointer-lifetime", "classes of src/core and src/algorithms", "umbrella 'core'", "%d classes with pointer-typed members examined, %d members hold addresses of container elements" % (nc_, np_))
